@@ -7,3 +7,8 @@ pub assume_specification<T: PartialEq, E: PartialEq>[ <Result<T, E> as PartialEq
 // R-FMT target: an arbitrary String standing for the text of an error message
 #[verifier::external_body]
 pub fn vx_msg() -> (r: String) { unimplemented!() }
+
+// Vec<T> == &[U] (used for the tombstone test on bytes): element-wise equality; stated for T = U with structural eq
+pub assume_specification<'a, T: PartialEq<U>, U, A: core::alloc::Allocator>[ <Vec<T, A> as PartialEq<&'a [U]>>::eq ](a: &Vec<T, A>, b: &&[U]) -> (r: bool)
+    ensures a@.len() != (*b)@.len() ==> !r,
+            a@.len() == 0 && (*b)@.len() == 0 ==> r;
